@@ -17,10 +17,11 @@ Has(o, f) == f \in DOMAIN o
 Range(s) == { s[i] : i \in DOMAIN s }
 
 (* ---------------------------------------------------------------- C03 *)
+\* the quadratic bound walk <= ~4 n^2 is written as walk / (n+1) <= 4n + 64 so that TLC's 32-bit integers cannot overflow
 C03(o) ==
   IF Has(o, "outcome") THEN <<"the worker did not return: " \o o.outcome>>
   ELSE IF o.status = "panic" THEN <<o.stage \o " panicked">>
-  ELSE (IF Has(o, "walk") /\ o.walk > 4 * o.ntoks * o.ntoks + 64 THEN <<"parser parent walk is not polynomially bounded">> ELSE <<>>)
+  ELSE (IF Has(o, "walk") /\ o.walk \div (o.ntoks + 1) > 4 * o.ntoks + 64 THEN <<"parser parent walk is not polynomially bounded">> ELSE <<>>)
     \o (IF Has(o, "builds") /\ \E i \in DOMAIN o.builds : Has(o.builds[i], "pops") /\ o.builds[i].pops > 16 * o.nnodes + 64 THEN <<"builder work is not linearly bounded">> ELSE <<>>)
 
 (* ---------------------------------------------------------------- C04: the tree *)
